@@ -58,13 +58,43 @@ def split_checks(out, tier):
     model.close()
 
 
+def interleaved_crash_jobs(rnd, prof, tier):
+    """groups whose members are NOT contiguous in the collection (module-level functions around a class; alternating
+    xdist_groups), small units, and workers dying inside them: a replacement joins with nothing while the front of the
+    work queue is the one-test remainder of a crashed group followed by an interleaving group"""
+    if prof != "crash":
+        return []
+    import drive_sim
+    jobs = []
+    for _ in range(60 if tier == "quick" else 1500):
+        seed = rnd.randrange(1 << 30)
+        r2 = __import__("random").Random(seed)
+        mode = r2.choice(["loadscope", "loadgroup"])
+        nb = r2.randint(4, 8)
+        nc = r2.randint(2, 3)
+        if mode == "loadscope":
+            ids = ["m.py::test_a"] + ["m.py::TestD::t%d" % i for i in range(nc)] + ["m.py::test_b"] + ["n.py::u%d" % i for i in range(nb)]
+        else:
+            ids = []
+            for i in range(nc + 1):
+                ids += ["m.py::a%d@ga" % i, "m.py::b%d@gb" % i]
+            ids = ids[:-1] + ["n.py::u%d@gn" % i for i in range(nb)]
+        cfg = drive_sim.make_cfg(r2, {"profile": "crash", "mode": mode})
+        small = [i for i, t in enumerate(ids) if t.startswith("m.py")]
+        cfg.update({"mode": mode, "numnodes": 2, "coll": ids, "overrides": {}, "collreports": {}, "stops": [], "maxfail": 0, "requeue": 0,
+                    "max_restart": 8, "reports": [[0] for _ in ids], "durs": [0 for _ in ids], "specs": [0, 0],
+                    "crashers": [[r2.randrange(2), r2.choice(small)] for _ in range(r2.randint(1, 2))]})
+        jobs.append({"kind": "online", "seed": seed, "cfg": cfg, "ext_crash_p": 0.0})
+    return jobs
+
+
 def run(out: common.Outcome):
     split_checks(out, out.tier)
     system_common.standard_run(
         out, "C06", [("nocrash", 0.5), ("crash", 0.5)], ["groups", "exactly_once", "internal_error"],
         nontrivial=lambda r: len(r["cfg"]["coll"]) >= 3,
         rule="loadscope/loadfile/loadgroup sessions over collections with file, class and xdist_group structure, with and without crashes; non-trivial = at least three tests",
-        modes=["loadscope", "loadfile", "loadgroup"])
+        modes=["loadscope", "loadfile", "loadgroup"], extra_jobs=interleaved_crash_jobs)
 
 
 replay = system_common.replay
